@@ -25,6 +25,8 @@ def search_jobs(prop, tier):
                    functions=[fn_id(C._match_rule)], site="_match_rule"))
     out.append(Job(prop + ".PREFILTER", H, "ob_prefilter", timeout=900, bounds="sequences <= 4 over two pattern ids, rule patterns <= 3 elements",
                    functions=[fn_id(PP._seq_match)], site="_seq_match"))
+    out.append(Job(prop + ".PREFILTER-HIST", H, "ob_filter_hist", timeout=900, bounds="two initial sequences of 3 matches over two pattern ids analysed one after the other (6-rule toy registry): the second analysis equals a fresh one and keeps every embeddable rule",
+                   functions=[fn_id(PP.PartialParse.from_regex_matches), fn_id(PP.PartialParse._filter_rules)], site="from_regex_matches"))
     out.append(Job(prop + ".APPLY", H, "ob_apply", timeout=600, bounds="prod <= 4 elements, every window, rule result None | value",
                    functions=[fn_id(PP.PartialParse.apply_rule), fn_id(PP.PartialParse.__init__)], site="apply_rule"))
     out.append(Job(prop + ".COVER", H, "ob_cover", timeout=600, bounds="3 matches over 3 texts with different gaps, relative_match_len in {1.0, 0.5}",
